@@ -1,5 +1,5 @@
 """C05 — query results equal a direct evaluation of the query over the data."""
-import functools, os
+import functools, json, os
 from . import lib
 from .engine import Cfg
 
@@ -79,6 +79,56 @@ class World:
         return fd
 
 
+def from_json(x):
+    """python json value -> value tuples"""
+    if x is None: return NULL
+    if isinstance(x, bool): return ("B", x)
+    if isinstance(x, int): return ("I", x)
+    if isinstance(x, str): return ("S", x)
+    if isinstance(x, list): return ("jarr", [from_json(v) for v in x])
+    return ("jobj", [(k, from_json(v)) for k, v in x.items()])
+
+
+def parse_path(spec):
+    if spec == "$": return []
+    if spec.startswith("@"): return [int(spec[1:])]
+    out = []
+    for seg in spec.split("/"):
+        if ":" in seg:
+            k, i = seg.split(":"); out += [k, int(i)]
+        else: out.append(seg)
+    return out
+
+
+def jget(j, path):
+    for p in path:
+        if j is None: return None
+        if isinstance(p, int):
+            if j[0] != "jarr" or p >= len(j[1]): return None
+            j = j[1][p]
+        else:
+            if j[0] != "jobj": return None
+            d = dict(j[1])
+            if p not in d: return None
+            j = d[p]
+    return j
+
+
+def json_min(j):
+    if j == NULL: return "null"
+    if j[0] == "B": return "true" if j[1] else "false"
+    if j[0] == "I": return str(j[1])
+    if j[0] == "S": return '"' + j[1] + '"'
+    if j[0] == "jarr": return "[" + ",".join(json_min(v) for v in j[1]) + "]"
+    return "{" + ",".join('"%s":%s' % (k, json_min(v)) for k, v in j[1]) + "}"
+
+
+def jleaf(j):
+    if j is None: return NULL
+    if j[0] in ("jarr", "jobj"): return ("S", json_min(j))
+    return j
+
+
 def selected(sw, fd, stored):
     dv = fd["dflt"] if fd["dflt"] is not None else NULL
     if dv[0] == "B" and "bool-default-as-number" in sw: dv = ("I", 1 if dv[1] else 0)
@@ -114,7 +164,11 @@ def filter_holds(w, sw, ent, r, f):
 
 
 def holds(w, sw, my_key, n, r, f, depth=0):
-    """one filter of node n on row r: scalar, or `= null` / `!= null` on a reference field"""
+    """one filter of node n on row r: scalar, through a json selector, or `= null` / `!= null` on a reference field"""
+    if f.get("jpath") is not None:
+        x = jleaf(jget(r["jsons"].get(f["f"]), f["jpath"]))
+        if f["v"] == NULL: return (x == NULL) if f["op"] == "eq" else ((x != NULL) if f["op"] == "ne" else False)
+        return compare(f["op"], x, f["v"])
     if not f.get("ref"): return filter_holds(w, sw, w.nodes[n]["ent"], r, f)
     node = w.nodes[n]
     fd = w.fdef(r["ent"], f["f"])
@@ -191,7 +245,12 @@ def project(w, sw, my_key, n, r):
     for s in node["sels"]:
         if s[0] == "scalar":
             fd = w.fdef(r["ent"], s[2])
-            out.append((s[1], selected(sw, fd, r["vals"].get(s[2])) if fd else NULL))
+            if fd and fd["kind"] == "J": out.append((s[1], r["jsons"].get(s[2]) or NULL))
+            else: out.append((s[1], selected(sw, fd, r["vals"].get(s[2])) if fd else NULL))
+        elif s[0] == "json":
+            out.append((s[1], jget(r["jsons"].get(s[2]), s[3]) or NULL))
+        elif s[0] == "agg":
+            out.append((s[1], NULL))
         elif s[0] == "id":
             out.append((s[1], ("#", r["id"])))
         else:
@@ -218,6 +277,8 @@ def refused(w, sw, n, renders_limit):
 
 def canon_scalar(v):
     if v == NULL: return "N"
+    if v[0] == "jobj": return "J{" + ";".join("%s=%s" % (k, canon_scalar(x)) for k, x in v[1]) + "}"
+    if v[0] == "jarr": return "A[" + ",".join(canon_scalar(x) for x in v[1]) + "]"
     if v[0] == "B": return "B1" if v[1] else "B0"
     if v[0] == "I": return "I%d" % v[1]
     if v[0] == "S": return "S" + ".".join(str(ord(c)) for c in v[1])
@@ -345,7 +406,11 @@ def apply_op(w, k, a):
             for j in range(len(w.ents[e])):
                 fd = w.fdef(e, j)
                 if fd["dflt"] is not None and j not in vals and (not fd["late"] or w.upgraded): vals[j] = fd["dflt"]
-            w.rows.append({"id": int(a["id"]), "ent": e, "vals": vals, "refs": refs})
+            jsons = {}
+            for t in (a.get("j") or "").split("|"):
+                if t:
+                    j, x = t.split(":", 1); jsons[int(j)] = from_json(json.loads(dec(x)))
+            w.rows.append({"id": int(a["id"]), "ent": e, "vals": vals, "refs": refs, "jsons": jsons})
         elif k == "q":
             n = int(a["n"])
             if n == 0: w.nodes = {}
@@ -356,9 +421,11 @@ def apply_op(w, k, a):
             nd["sels"].append(("id", a["key"]) if a["f"] == "id" else ("scalar", a["key"], int(a["f"])))
         elif k == "qe": w.nodes[int(a["n"])]["sels"].append(("sub", a["key"], int(a["f"]), int(a["child"])))
         elif k == "qg": w.nodes[int(a["n"])]["sels"].append(("agg", a["key"], a["fn"], int(a["f"])))
+        elif k == "qj": w.nodes[int(a["n"])]["sels"].append(("json", a["key"], int(a["f"]), parse_path(a["path"])))
         elif k == "qf":
             w.nodes[int(a["n"])]["filters"].append({"name": a["name"], "sel": a["sel"] == "1", "f": int(a["f"]), "op": a["op"],
-                                                   "v": parse_val(a["v"]), "var": a.get("var") == "1", "ref": a.get("ref") == "1"})
+                                                   "v": parse_val(a["v"]), "var": a.get("var") == "1", "ref": a.get("ref") == "1",
+                                                   "jpath": parse_path(a["jpath"]) if "jpath" in a else None})
         elif k == "qo":
             w.nodes[int(a["n"])]["orders"].append({"name": a["name"], "sel": a["sel"] == "1", "f": int(a["f"]), "desc": a["dir"] == "desc"})
         elif k == "ql":
@@ -417,15 +484,16 @@ class C05(Cfg):
         "Counter-examples (decide-checked) for ties, for absent keys and for a sub-selection that has the same key as its parent. "
         "The statement `the SQL compiler implements eval` is NOT proved (it would need a formal semantics of SQLite): it is decided by the differential run of every check: generated data models "
         "(namespaces, Integer/String/Boolean fields required/nullable/with default/added in a later model version, entity and array references incl. self references), data sets with ties and absent values on purpose, "
-        "and type-directed queries (aliases, nesting depth <= 3, filters on selected and unselected fields with literals and parameters, 1-3 order keys, first/skip, before/after, nullable(), id, count/min/max with grouping) are evaluated by the compiled Lean evaluator "
+        "and type-directed queries (aliases, nesting depth <= 3, filters on selected and unselected fields with literals and parameters, 1-3 order keys, first/skip, before/after, nullable(), id, reference null tests, json selectors, count/min/max with grouping and having-filters) are evaluated by the compiled Lean evaluator "
         "and by the real QueryParser + PreparedQueries + Query::read on SQLite; the JSON results are compared structurally (rows that tie on every visible order key as multisets). "
         "An independent second evaluator of the intended semantics (Python) is the oracle: every difference between it and the implementation must be explained by a listed deviation.")
     level_note = (
         "Proved about the evaluator only; the tie between evaluator and Rust code is differential (sampled), not a proof. "
         "Language subset covered: scalar selection (Integer, String, Boolean; required, nullable, default, late fields), id, aliases, entity/array sub-selections to depth 3, nullable(), "
         "filters = != < <= > >= (literal, parameter, null) on fields and aliases with the default-aware rule, order_by (1-3 keys, asc/desc), first/skip, before/after; "
-        "at the root also count()/min()/max() over required Integer fields grouped by 0-2 plain scalar fields, with a filter and order_by on group fields or aggregate aliases. "
-        "NOT covered: Float/Base64/Json fields and json selectors, avg()/sum() (floats), having-filters, limits/cursors on grouped queries, search(), filters on reference fields, room/author system fields, several root selections in one query, the service API (covered in C04). "
+        "`= null` / `!= null` on reference fields; Json fields selected as a whole or through json selectors (`f->$.a.b[0]`, `f->2`, `f->$`) and filtered through them; "
+        "at the root also count()/min()/max() over required Integer fields grouped by 0-2 plain scalar fields, with filters on fields, having-filters on aggregate aliases and order_by on group fields or aggregate aliases. "
+        "NOT covered: Float and Base64 fields, Json values with escapes/floats/null and Json defaults, avg()/sum() (floats), limits/cursors/sub-selections on grouped queries, search() (FTS5 ranking), ordering on Json fields, parameters in json filters, room/author/date system fields, several root selections in one query, the service API (covered in C04). "
         "The paging theorem's hypothesis is that the order-key tuples of the selected rows are pairwise different (and present, for the code as it is); that the result is sorted is a theorem (C05_result_sorted).")
     trusted_base = [
         "hand-written evaluator lean/DiscretModel/Model/Query.lean, tied to the code by the differential run (dv-query vs dmodel_query)",
@@ -440,7 +508,7 @@ class C05(Cfg):
     ]
 
     def streams(self, tier, seed, work, dv):
-        n = 150 if tier == "quick" else 2500
+        n = 150 if tier == "quick" else 3500
         path = os.path.join(work, "queries.ops")
         lib.sh([dv, "gen", "--prop", "C05", "--seed", str(seed), "--n", str(n), "--tier", tier, "--out", path], check=True)
         return [("queries seed=%d cases=%d" % (seed, n), path, False)]
